@@ -35,6 +35,17 @@ type pgen struct {
 	// features of the command under construction that are known to hit gluon defects:
 	// listlit (list-mailbox as literal), lbr ('[' inside an atom)
 	feats map[string]bool
+	// knobs of the pipeline dialect (d_c10pipe.go); all off (zero) for parse / parsebad / parsen, whose random
+	// streams they leave untouched:
+	// litBias = per cent of the string arguments that are forced into the literal encoding;
+	// sizes = lengths strVal draws from now and then (buffer-boundary lengths);
+	// noListLit = never write a list-mailbox as a literal (known finding K-list-mailbox-literal: it would
+	// desynchronise the rest of the stream)
+	litBias   int
+	sizes     []int
+	noListLit bool
+	// noLBrAtom = never write a value containing '[' as an atom (known finding K-lbracket-atom, same reason)
+	noLBrAtom bool
 }
 
 func (g *pgen) feat(f string) {
@@ -104,6 +115,9 @@ func (g *pgen) atomVal(minLen, maxLen int) []byte {
 
 // strVal: a string value of a random flavour.
 func (g *pgen) strVal() []byte {
+	if len(g.sizes) > 0 && g.r.Chance(1, 4) {
+		return g.sizedVal(Pick(g.r, g.sizes))
+	}
 	switch c := g.r.Intn(20); {
 	case c < 8:
 		return g.atomVal(1, 10)
@@ -145,6 +159,28 @@ func (g *pgen) strVal() []byte {
 		}
 		return b
 	}
+}
+
+// sizedVal: a value of exactly n bytes; letters only, 7-bit text, or arbitrary bytes (which must go on the wire as
+// a literal). No long runs of one byte: a value that is overwritten or shifted shows.
+func (g *pgen) sizedVal(n int) []byte {
+	b := make([]byte, n)
+	switch g.r.Intn(3) {
+	case 0:
+		for i := range b {
+			b[i] = atomAlphabet[g.r.Intn(len(atomAlphabet))]
+		}
+	case 1:
+		const text = "abcXYZ019 ()[]{}%*\"\\]/.,-_@"
+		for i := range b {
+			b[i] = text[g.r.Intn(len(text))]
+		}
+	default:
+		for i := range b {
+			b[i] = byte(g.r.Intn(256))
+		}
+	}
+	return b
 }
 
 func isAtomSafe(v []byte, extra string) bool {
@@ -190,6 +226,9 @@ func (g *pgen) literal(v []byte) []byte {
 
 // stringEnc: `string = quoted / literal`
 func (g *pgen) stringEnc(v []byte) []byte {
+	if g.litBias > 0 && g.r.Intn(100) < g.litBias {
+		return g.literal(v)
+	}
 	if len(v) == 0 {
 		if g.allowZeroLit && g.r.Chance(1, 4) {
 			return g.literal(v)
@@ -204,7 +243,14 @@ func (g *pgen) stringEnc(v []byte) []byte {
 
 // astring: `astring = 1*ASTRING-CHAR / string` (ASTRING-CHAR = ATOM-CHAR / "]")
 func (g *pgen) astring(v []byte) []byte {
-	if isAtomSafe(v, "][") && v[0] != '{' && g.r.Chance(2, 3) {
+	if g.litBias > 0 && g.r.Intn(100) < g.litBias {
+		return g.literal(v)
+	}
+	extra := "]["
+	if g.noLBrAtom {
+		extra = "]"
+	}
+	if isAtomSafe(v, extra) && v[0] != '{' && g.r.Chance(2, 3) {
 		g.st.Inc("enc.atom")
 		return g.noteAtom(append([]byte(nil), v...))
 	}
@@ -244,6 +290,12 @@ func (g *pgen) listMailbox() ([]byte, []byte) {
 		return g.noteAtom(b), b
 	}
 	v := g.strVal()
+	if g.noListLit {
+		if !isQuotedSafe(v) {
+			v = g.atomVal(1, 6)
+		}
+		return g.quoted(v), v
+	}
 	// a list-mailbox written as a literal is valid syntax but misparsed by gluon: keep it rare
 	if !isQuotedSafe(v) && !g.r.Chance(1, 12) {
 		v = g.atomVal(1, 6)
